@@ -130,10 +130,22 @@ class Impl:
         self.log = []
 
     def reset(self, meth, flags=(True, True)):
+        """every third history has its source directory reached through a symbolic link (/data -> /mnt/disk1/data):
+        events and listings carry the link's spelling, and relative paths under the destination must not change"""
         self.flags = tuple(flags)
-        for top in (self.src, self.dest):
+        self.nreset = getattr(self, "nreset", 0) + 1
+        self.src_symlinked = (self.nreset % 3 == 0) if getattr(self, "force_symlink", None) is None else self.force_symlink
+        real = self.src + "_real"
+        if os.path.islink(self.src):
+            os.unlink(self.src)
+        for top in (self.src, self.dest, real):
             shutil.rmtree(top, ignore_errors=True)
-            os.makedirs(top)
+        os.makedirs(self.dest)
+        if self.src_symlinked:
+            os.makedirs(real)
+            os.symlink(real, self.src)
+        else:
+            os.makedirs(self.src)
         cls = self.mm.DigitalRFMirror
         orig = cls._init_observer
         cls._init_observer = lambda _self: None          # never create or start observer threads
@@ -541,6 +553,9 @@ def run_history(impl, meth, evs, snapshots=True, flags=(True, True)):
         states.append(st)
     impl.snap_cb = None
     orc.final(ring_deleted)
+    if impl.src_symlinked:
+        # (index, (signature, title, expected, observed)) -- the observed part says how the source was reached
+        orc.viol = [(k, (v[0], v[1], v[2], {"source_through_symlink": True, "observed": v[3]})) for k, v in orc.viol]
     return groups, states, orc.viol
 
 
@@ -657,7 +672,8 @@ def check_histories(res, impl, meth, hists, tag, flags=(True, True)):
                     break
         for i, v in viols:
             sig, title, exp, obs = v
-            res.violation(sig, title, dict(inp, failing_event=i), exp, obs)
+            sym = isinstance(obs, dict) and obs.get("source_through_symlink")
+            res.violation(sig, title, dict(inp, failing_event=i, source_through_symlink=bool(sym)), exp, obs)
 
 
 # ----------------------------------------------------------------------------- a real recording end to end
@@ -1006,6 +1022,9 @@ def replay(res, rp):
             print("VIOLATION", v["signature"], v["observed"])
         return 1 if res.violations else 0
     impl = Impl(bool(i.get("cross_fs")))
+    impl.force_symlink = bool(i.get("source_through_symlink"))
+    if impl.force_symlink:
+        print("the source directory is reached through a symbolic link")
     evs = [tuple(tuple(x) if isinstance(x, list) else x for x in e) for e in i["events"]]
     groups, states, viols = run_history(impl, i["meth"], evs, flags=flags)
     print("method", METH[i["meth"]], "include_drf", flags[0], "include_dmd", flags[1])
